@@ -306,3 +306,83 @@ def check_traversal(ctx: CheckContext, p: Program, r: Resolver, rule: str = "TRA
             k = n.targets[0].slice
             okk = isinstance(k, ast.Attribute) and k.attr == "name" and isinstance(k.value, ast.Name) and isinstance(n.value, ast.Name) and k.value.id == n.value.id
     ctx.ob(rule, f"{at.qualname}:own-name", at.loc, okk, "" if okk else "Zone.add_target does not store the record under its own name")
+
+
+def check_insert_count(ctx: CheckContext, p: Program, r: Resolver, rule: str = "COUNT"):
+    """`insert_temperature_interval` returns the number of rows actually added: the count that leaves the method is (an alias of)
+    the amount by which the expanded buffer was sized, and 0 on the paths that keep the buffer."""
+    ctx.rule(rule, "the insertion count returned to callers is the very quantity the expanded buffer was enlarged by (alias-following), and literal 0 on paths "
+                   "that do not replace the buffer - callers rebase row indices by it and treat 0 as 'views still valid'")
+    pt = p.find_class("ProblemTable")
+    if pt is None:
+        raise AnalysisError("ProblemTable not found")
+    ins = pt.methods.get("insert_temperature_interval")
+    if ins is None:
+        raise AnalysisError("ProblemTable.insert_temperature_interval not found")
+
+    def aliases_of(f: FuncInfo, name: str) -> Set[str]:
+        al = {name}
+        for _ in range(4):
+            for n in body_nodes(f):
+                if isinstance(n, ast.Assign) and isinstance(n.value, ast.Name) and n.value.id in al:
+                    for t in n.targets:
+                        if isinstance(t, ast.Name):
+                            al.add(t.id)
+        return al
+
+    # the builder: a method that allocates np.zeros/empty/full((rows + added, cols)) and returns (buffer, count)
+    builder, added = None, None
+    for nm, f in pt.methods.items():
+        for n in body_nodes(f):
+            if isinstance(n, ast.Call) and isinstance(n.func, ast.Attribute) and n.func.attr in ("zeros", "empty", "full") and n.args \
+                    and isinstance(n.args[0], ast.Tuple) and n.args[0].elts and isinstance(n.args[0].elts[0], ast.BinOp) and isinstance(n.args[0].elts[0].op, ast.Add):
+                e = n.args[0].elts[0]
+                names = [x.id for x in (e.left, e.right) if isinstance(x, ast.Name)]
+                for cand in names:
+                    # the other operand must be the current row count
+                    builder, added = f, cand
+    if builder is None:
+        raise AnalysisError("buffer-expanding method of ProblemTable not recognised (anchor vanished)")
+    # which operand is the row count?  the one unpacked from self.data.shape
+    shape_vars = set()
+    for n in body_nodes(builder):
+        if isinstance(n, ast.Assign) and isinstance(n.targets[0], ast.Tuple) and "shape" in ast.unparse(n.value):
+            shape_vars |= {e.id for e in n.targets[0].elts if isinstance(e, ast.Name)}
+    for n in body_nodes(builder):
+        if isinstance(n, ast.Call) and isinstance(n.func, ast.Attribute) and n.func.attr in ("zeros", "empty", "full") and n.args and isinstance(n.args[0], ast.Tuple):
+            e = n.args[0].elts[0]
+            if isinstance(e, ast.BinOp):
+                ops = [x.id for x in (e.left, e.right) if isinstance(x, ast.Name)]
+                rest = [x for x in ops if x not in shape_vars]
+                if len(rest) == 1:
+                    added = rest[0]
+    al = aliases_of(builder, added)
+    n_ret = 0
+    for rt in [x for x in body_nodes(builder) if isinstance(x, ast.Return) and isinstance(x.value, ast.Tuple) and len(x.value.elts) == 2]:
+        n_ret += 1
+        cnt = rt.value.elts[1]
+        buf = rt.value.elts[0]
+        keeps = ast.unparse(buf) == "self.data"
+        ok = (isinstance(cnt, ast.Name) and cnt.id in al and not keeps) or (keeps and isinstance(cnt, ast.Constant) and cnt.value == 0)
+        ctx.ob(rule, f"{builder.qualname}:{norm_stmt(rt)}", f"{builder.module.relpath}:{rt.lineno}", ok,
+               "" if ok else f"{builder.name} returns `{ast.unparse(cnt)}` as the number of inserted rows, which is not the amount '{added}' the buffer grew by")
+    if n_ret == 0:
+        raise AnalysisError(f"{builder.loc}: no (buffer, count) return recognised")
+    # the public method hands that count on
+    cntvars: Set[str] = set()
+    for n in body_nodes(ins):
+        if isinstance(n, ast.Assign) and isinstance(n.targets[0], ast.Tuple) and len(n.targets[0].elts) == 2 and isinstance(n.value, ast.Call) \
+                and builder in r.resolve_call(ins, n.value) and isinstance(n.targets[0].elts[1], ast.Name):
+            cntvars |= aliases_of(ins, n.targets[0].elts[1].id)
+    if not cntvars:
+        raise AnalysisError(f"{ins.loc}: the call that expands the buffer was not recognised")
+    replaced_line = min([n.lineno for n in body_nodes(ins) if isinstance(n, ast.Assign) and "self.data" in [ast.unparse(t1) for t in n.targets for t1 in (t.elts if isinstance(t, ast.Tuple) else [t])]] or [10**9])
+    for rt in [x for x in body_nodes(ins) if isinstance(x, ast.Return)]:
+        v = rt.value
+        if rt.lineno < replaced_line:
+            ok = isinstance(v, ast.Constant) and v.value == 0
+            why = f"insert_temperature_interval returns `{ast.unparse(v) if v else None}` before any row was inserted (must be 0)"
+        else:
+            ok = isinstance(v, ast.Name) and v.id in cntvars
+            why = f"insert_temperature_interval returns `{ast.unparse(v) if v else None}` instead of the count produced by {builder.name}"
+        ctx.ob(rule, f"{ins.qualname}:{norm_stmt(rt)}", f"{ins.module.relpath}:{rt.lineno}", ok, "" if ok else why)
